@@ -33,13 +33,16 @@ pub open spec fn hdr_decode(w: int) -> Option<(usize, PktType, LabelType)> {
 pub proof fn lemma_hdr_mask(a: u16, b: u16, c: u16)
     requires a == 0 || a == 0x4000 || a == 0x8000 || a == 0xC000, b == 0 || b == 0x1000 || b == 0x2000 || b == 0x3000,
     ensures ((a & 0xC000u16) | (b & 0x3000u16) | (c & 0x0FFFu16)) as int == a + b + (c as int) % 0x1000,
-        // the three fields do not overlap: any order and grouping of the `|` gives the same word (robustness against reordering edits)
+        // robustness against reordering edits: `&` is commutative, and the three fields do not overlap, so any order and
+        // grouping of the `|` gives the same word
+        0xC000u16 & a == a & 0xC000u16 && 0x3000u16 & b == b & 0x3000u16 && 0x0FFFu16 & c == c & 0x0FFFu16,
         ({ let x = a & 0xC000u16; let y = b & 0x3000u16; let z = c & 0x0FFFu16; let w = (x | y) | z;
            (x | z) | y == w && (y | x) | z == w && (y | z) | x == w && (z | x) | y == w && (z | y) | x == w
            && x | (y | z) == w && x | (z | y) == w && y | (x | z) == w && y | (z | x) == w && z | (x | y) == w && z | (y | x) == w }),
 {
     assert((a & 0xC000u16) | (b & 0x3000u16) | (c & 0x0FFFu16) == a + b + (c % 0x1000u16)) by (bit_vector)
         requires a == 0 || a == 0x4000 || a == 0x8000 || a == 0xC000, b == 0 || b == 0x1000 || b == 0x2000 || b == 0x3000;
+    assert(0xC000u16 & a == a & 0xC000u16 && 0x3000u16 & b == b & 0x3000u16 && 0x0FFFu16 & c == c & 0x0FFFu16) by (bit_vector);
     let x = a & 0xC000u16; let y = b & 0x3000u16; let z = c & 0x0FFFu16; let w = (x | y) | z;
     assert((x | z) | y == w && (y | x) | z == w && (y | z) | x == w && (z | x) | y == w && (z | y) | x == w
         && x | (y | z) == w && x | (z | y) == w && y | (x | z) == w && y | (z | x) == w && z | (x | y) == w && z | (y | x) == w) by (bit_vector)
